@@ -65,6 +65,7 @@ def obligations(tier):
            encodes=['recognizers_date_time.date_time.base_merged:BaseMergedExtractor.add_mod', 'recognizers_date_time.date_time.base_merged:BaseMergedExtractor.try_merge_modifier_token',
                     'recognizers_date_time.date_time.base_merged:BaseMergedExtractor.has_token_index']),
         Ob('O1.8-witness', 'fn', 'harness.witness:api_witness', slices=[{'w': 'F2'}], timeout=t, finding='F2', descr='API witness of F2 (empty entity)'),
+        Ob('O1.9-witness-double-mod', 'fn', 'harness.witness:api_witness', slices=[{'w': 'F44'}], timeout=t, finding='F44', descr='API witness of F44 (leading and trailing modifier on one entity)'),
         Ob('O1.9-witness-zh', 'fn', 'harness.witness:api_witness', slices=[{'w': 'F37'}], timeout=t, finding='F37', descr='API witness of F37 (zh-cn modifier widening: negative start)'),
     ]
     kinds = ['phone', 'ip', 'email', 'url', 'hashtag', 'mention', 'guid', 'currency', 'dimension', 'number', 'percentage', 'datetime']
